@@ -110,8 +110,10 @@ func ruleA1BSI(p *Prog) *RuleResult {
 				var cells []string
 				if e := sum.mut[k]; e != nil {
 					for cell, wit := range e.cells {
-						if strings.Contains(cell, "big.Int") || cell == "" {
-							cells = append(cells, wit)
+						// a task is the one object every worker goroutine of a query shares: nothing in it may be
+						// written by the code that receives it (lazily cached fields included)
+						if strings.Contains(cell, "big.Int") || cell == "" || (isTask && strings.Contains(cell, "task.")) {
+							cells = append(cells, cell+": "+wit)
 						}
 					}
 				}
